@@ -124,3 +124,21 @@ Theorem C04_mgda_allowance_unconditional : forall n J eps iters s, wfmat n J -> 
     - s * sqrt (dotR x x - dotR xstar xstar) <= dotR (nth i J []) x.
 Proof. exact mgda_allowance_unconditional. Qed.
 Print Assumptions C04_mgda_allowance_unconditional.
+
+(* ---- CAGrad (added): the conic program HAS an optimum (an l1-Lipschitz function attains its minimum on the simplex;
+   same one-dimensional compactness argument, no choice axiom), and for c >= 1 every optimum gives an update that opposes
+   no objective, whether or not it passes the norm_eps test (below it the update is the zero vector) ---- *)
+From TJ.proofs Require Import SimplexMinExists.
+Theorem C04_cagrad_program_has_an_optimum : forall n J s ne c, wfmat n J -> J <> [] -> 0 < s ->
+  nltb RN s ne = false -> 0 <= c ->
+  exists w_opt, cagrad_opt (normalized_gramian RN (gramR J) s ne) c w_opt.
+Proof. exact cagrad_opt_exists. Qed.
+Print Assumptions C04_cagrad_program_has_an_optimum.
+Theorem C04_cagrad_unconditional : forall n J s ne c,
+  wfmat n J -> J <> [] -> 0 < s -> nltb RN s ne = false -> 0 < ne -> 1 <= c ->
+  let Gn := normalized_gramian RN (gramR J) s ne in
+  exists w_opt, cagrad_opt Gn c w_opt /\
+    forall w, cagrad_opt Gn c w ->
+      forall i, (i < length J)%nat -> 0 <= nth i (mvR J (agg_cagrad RN s ne c w J)) 0.
+Proof. exact cagrad_c_ge_1_exists_nonconflicting_all. Qed.
+Print Assumptions C04_cagrad_unconditional.
